@@ -18,10 +18,10 @@ import os
 import tempfile
 from pathlib import Path
 
-from lib import S, B, observe_call
+from lib import S, B, unS, observe_call
 
 ALSO = ["C03b"]   # second engine for this property: the text layer (csv / json / UTF-8 models; harness/c03b.py, coq/Judge/JC03b.v, coq/Props/C03b.v)
-GEN = ["NameCleanerParams", "HeaderRowParams", "RegistryParams", "RecfmParams", "EstructParams", "Cp037", "TextCodec", "CsvOpenParams"]
+GEN = ["NameCleanerParams", "HeaderRowParams", "RegistryParams", "RecfmParams", "EstructParams", "Cp037", "TextCodec", "CsvOpenParams", "ImplParams"]
 RULE = ("streams: long = one table of 1650 (thorough: up to 4000) rows whose fixed-width / EBCDIC images exceed the 32 KiB read buffer, as CSV, fixed text and EBCDIC (RECFM N and F); shapes = every table shape 1..3 columns x 0..2 rows (exhaustive over shapes, distinct cell labels) in CSV, TAB, XLSX, "
         "ODS, NDJSON, fixed text, EBCDIC (RECFM N, F with and without lrecl; fixed text, RECFM N and RECFM F also with a layout of another length bound to the sheet before the table's own); plain = workbooks of 1-3 sheets, tables 1-6 columns with "
         "distinct header names sampled from a pool (blanks, punctuation, quotes, commas, tabs, non-ASCII) x 0-8 rows of non-empty "
@@ -35,13 +35,21 @@ RULE = ("streams: long = one table of 1650 (thorough: up to 4000) rows whose fix
         "(str.splitlines line ends, legal in CSV, JSON, Numbers, fixed text and CP037), written to every format except XLSX and ODS, "
         "whose writers refuse them; numsep = Numbers sheet names containing the sheet::table separator "
         "(known finding); anchors = tables whose column names include a name and another name equal to its cleaned ($anchor) form, "
-        "both orders, with and without a column in between (all header-row formats and NDJSON); xls = the read-only XLS sample against the XLSX sample. "
+        "both orders, with and without a column in between (all header-row formats and NDJSON); xls = the read-only XLS sample against the XLSX sample; "
+        "typed = workbooks of 1-3 sheets whose data cells are ints, floats, bools, empty cells and strs that look like them, stored as XLSX, ODS and "
+        "(a sample) Numbers: the case carries the document as the third-party parser holds it (dumped by the runner through the library directly) "
+        "and what the facade delivers; the judge demands every stored sheet once, in order, every row, every cell unconverted. "
         "Non-trivial = at least one data row (branch not 0); distinct = distinct case lines.")
 TRIVIAL_BRANCHES = [0]
 ASSUMPTIONS = [
     "H_ext (ASSUMED, not proved) for the office formats: each third-party writer/parser pair (openpyxl, pyexcel/pyexcel_ods3, numbers_parser, xlrd) "
     "returns the stored table: parser(writer(W)) = the header row followed by the data rows, every cell the written str; tied by this run "
     "for the generated tables only",
+    "the glue between those parsers and the facade (sheet_iter / instance_iter of XLSUnpacker, XLSXUnpacker, ODSUnpacker, NumbersUnpacker) is "
+    "NOT assumed: its rules are read from src/stingray/implementations.py on every run (harness/t1_impl.py -> coq/Gen/ImplParams.v), "
+    "interpreted by coq/Model/Workbook.v and proved to be the identity on the parsed document (Props/C03d.v); assumed about the libraries: "
+    "sheet_names() / sheetnames / sheets() give the stored names in order, a lookup by a missing name raises KeyError, get_rows() / "
+    "iter_rows() / iteration give every stored row in order, cell.value is the stored value (pyexcel rows hold the values themselves)",
     "for CSV, tab-delimited text and NDJSON the premise is PROVED (C03_text_premise, C03_facade_text) over executable models of csv.writer / "
     "csv.reader and of json.dumps / json.loads line by line (coq/Model/Csv.v, coq/Model/Ndjson.v); those models are tied to CPython and to "
     "the library's unpackers by the second engine C03b (harness/c03b.py) on every run",
@@ -83,6 +91,29 @@ LATIN = [c for c in CELLS if all(ord(ch) < 256 for ch in c) and "\n" not in c an
 # no quote characters, no leading/trailing blanks: the ODS writer/reader pair rewrites them (a'b comes back as 'a b')
 SHEET_NAMES = ["Sheet1", "Data", "Second sheet", "Ünï", "a.b", "x-y", "S 3", "Q&A", "2024", "(x)", "50%", "名前", "a,b"]
 TABLE_NAMES = ["Table 1", "T", "Tab::2", "Päge"]
+
+
+# data cells of the typed stream: what a spreadsheet holds besides text (None = an empty cell)
+TYPED_CELLS = [1, 0, -7, 42, 123456789, 2.5, 0.125, -1.5, True, False, None, None, "x", "42", "None", "1.0", "TRUE", " ", "é", "a,b"]
+
+
+def _typed_workbook(rng, fmt):
+    k = rng.choice([1, 2, 3])
+    tables = []
+    for nm in rng.sample(SHEET_NAMES, k):
+        n = rng.randint(1, 5)
+        rows = [[rng.choice(TYPED_CELLS) for _ in range(n)] for _ in range(rng.randint(0, 6))]
+        tables.append({"name": nm, "header": rng.sample(HEADINGS, n), "rows": rows, "widths": []})
+    numbers = []
+    if fmt == "numbers":
+        i = 0
+        while i < k:
+            share = 2 if (i + 1 < k and rng.random() < 0.5) else 1
+            tnames = rng.sample(["Table 1", "T", "Päge", "T 2"], share)
+            for j in range(share):
+                numbers.append([tables[i]["name"], tnames[j]])
+            i += share
+    return {"kind": "typed", "fmt": fmt, "tables": tables, "numbers": numbers}
 
 
 def _cobol_cell(rng, w, exact, pool):
@@ -178,6 +209,13 @@ def inputs(ctx):
     for kind in ("plain", "cobol"):
         for i in range(n_ctl):
             yield "ctl", _workbook(rng, kind, i < n_ctl_num, ctl=True)
+    for i in range(12 if quick else 120):
+        for fmt in ("xlsx", "ods") + (("numbers",) if i % 3 == 0 else ()):
+            yield "typed", _typed_workbook(rng, fmt)
+    # the repository's own sample workbooks (typed cells, dates, empty cells; the only XLS file there is), read only
+    for name, fmt in (("excel97_workbook.xls", "xls"), ("excel_workbook.xlsx", "xlsx"), ("ooo_workbook.ods", "ods"),
+                      ("numbers_workbook_13.numbers", "numbers"), ("numbers_workbook_09.numbers", "numbers")):
+        yield "typed", {"kind": "typed", "fmt": fmt, "sample": name, "tables": [], "numbers": []}
     for i in range(3 if quick else 12):
         wb = _workbook(rng, "plain", False)
         wb["numbers"] = [[t["name"], "T"] for t in wb["tables"]]
@@ -439,6 +477,108 @@ def _observe_tables(inp, folder):
     return [0, W, names, widths, formats]
 
 
+# ---------------------------------------------------------------- typed cells: the parser's document and the facade's reading
+
+
+def _write_typed(path, fmt, tables, names):
+    if fmt == "xlsx":
+        from openpyxl import Workbook
+        wb = Workbook()
+        wb.remove(wb.active)
+        for t in tables:
+            ws = wb.create_sheet(title=t["name"])
+            for r in _all_rows(t):
+                ws.append(r)
+        wb.save(path)
+    elif fmt == "ods":
+        from collections import OrderedDict
+        from pyexcel_ods3 import save_data
+        data = OrderedDict()
+        for t in tables:
+            data[t["name"]] = [["" if c is None else c for c in r] for r in _all_rows(t)]      # the writer has no empty cell
+        save_data(str(path), data)
+    else:
+        import numbers_parser
+        doc, last_sheet = None, None
+        for t, (sname, tname) in zip(tables, names):
+            rows = _all_rows(t)
+            dims = dict(num_rows=len(rows), num_cols=len(t["header"]))
+            if doc is None:
+                doc = numbers_parser.Document(sheet_name=sname, table_name=tname, num_header_rows=0, num_header_cols=0, **dims)
+                table = doc.sheets[0].tables[0]
+            elif sname == last_sheet:
+                table = doc.sheets[-1].add_table(tname, num_header_rows=0, num_header_cols=0, **dims)
+            else:
+                doc.add_sheet(sname, tname, **dims)
+                table = doc.sheets[-1].tables[0]
+                table.num_header_rows = 0
+                table.num_header_cols = 0
+            last_sheet = sname
+            for i, r in enumerate(rows):
+                for j, c in enumerate(r):
+                    if c is not None:
+                        table.write(i, j, c)
+        doc.save(path)
+
+
+def _parser_document(path, fmt):
+    """the document as the third-party library holds it, through the library alone (no stingray code runs here)"""
+    if fmt == "xlsx":
+        from openpyxl import load_workbook
+        wb = load_workbook(filename=path)
+        try:
+            return [[S(ws.title), [[_val(c) for c in r] for r in ws.values]] for ws in wb.worksheets]
+        finally:
+            wb.close()
+    if fmt == "ods":
+        import pyexcel
+        book = pyexcel.get_book(file_name=str(path))
+        return [[S(n), [[_val(c) for c in r] for r in rows]] for n, rows in book.to_dict().items()]
+    if fmt == "xls":
+        import xlrd
+        book = xlrd.open_workbook(path)
+        return [[S(sh.name), [[_val(c) for c in sh.row_values(i)] for i in range(sh.nrows)]] for sh in book.sheets()]
+    import numbers_parser
+    doc = numbers_parser.Document(path)
+    return [[S(s.name), [[S(t.name), [[_val(c) for c in r] for r in t.rows(values_only=True)]] for t in s.tables]] for s in doc.sheets]
+
+
+def _sample_path(ctx, name):
+    folder = Path(ctx.repo) / "sample"
+    if not (folder / name).exists():
+        folder = Path("/repo/sample")
+    return folder / name
+
+
+def _observe_typed(ctx, inp, folder):
+    import warnings
+    from stingray import open_workbook
+    fmt = inp["fmt"]
+    code = {"xlsx": 2, "ods": 3, "numbers": 4, "xls": 5}[fmt]
+    if "sample" in inp:
+        path = _sample_path(ctx, inp["sample"])
+        if not path.exists():
+            return None
+        try:
+            content = _parser_document(path, fmt)
+        except Exception:                  # a sample the installed library itself cannot parse is no case
+            return None
+        stored = content if fmt != "numbers" else [tb for sh in content for tb in sh[1]]
+        # the probe names: str() of the cells of each sheet's first row, as the parser holds them
+        headers = [[unS(c[-1]) for c in rows[0]] if rows else [] for _, rows in stored]
+        got = _read(lambda: open_workbook(path), _bind_header, headers)
+        gc.collect()
+        return [2, code, content, [[S(h) for h in hs] for hs in headers], got]
+    path = Path(folder) / ("w." + fmt)
+    with warnings.catch_warnings():       # numbers_parser resets the process's warning filters when a number or bool is written
+        _write_typed(path, fmt, inp["tables"], inp["numbers"])
+    headers = [t["header"] for t in inp["tables"]]
+    content = _parser_document(path, fmt)
+    got = _read(lambda: open_workbook(path), _bind_header, headers)
+    gc.collect()
+    return [2, code, content, [[S(h) for h in hs] for hs in headers], got]
+
+
 def _observe_sample(ctx):
     from stingray import open_workbook
     folder = Path(ctx.repo) / "sample"
@@ -470,12 +610,20 @@ def observe(ctx, inp):
     if inp["kind"] == "xls":
         return _observe_sample(ctx)
     with tempfile.TemporaryDirectory(prefix="c03_") as folder:
+        if inp["kind"] == "typed":
+            return _observe_typed(ctx, inp, folder)
         return _observe_tables(inp, folder)
 
 
 def describe(inp):
     if inp["kind"] == "xls":
         return "read-only: sample/excel97_workbook.xls against sample/excel_workbook.xlsx"
+    if inp["kind"] == "typed" and "sample" in inp:
+        return f"read-only: sample/{inp['sample']} through the facade against the document the parser holds"
+    if inp["kind"] == "typed":
+        return (f"typed cells stored as {inp['fmt']}: " + "; ".join(
+            f"{t['name']!r} header={t['header']!r} rows={t['rows']!r}" for t in inp["tables"])
+            + (f" numbers={inp['numbers']!r}" if inp["numbers"] else ""))
     return (f"{inp['kind']} workbook " + "; ".join(
         f"{t['name']!r} header={t['header']!r} widths={t['widths']!r} rows={t['rows']!r}" for t in inp["tables"])
         + (f" numbers={inp['numbers']!r}" if inp["numbers"] else ""))
